@@ -5,6 +5,7 @@ ASSUME = [
     "'integrates to' uses the quadrature the code base defines (Simpson weights in both directions); shares are compared at 2*n*2^-24 relative (float accumulation over n terms), empty buckets exactly",
     "reported moments are compared (1) with the first/second moment of the bunch's own stored projection, computed by the oracle in double (plain sums), and (2) for single Gaussians with the analytic mean/width at 1e-3/2e-3 sigma (+32*n*2^-24*extent for float accumulation) (Gaussians at least 2.5 cells wide and 5.5 sigma inside the grid, so discretisation error is far below that)",
     "the generating constructor (start distribution of width 'zoom', at least 1.5 cells, up to wider than the grid) must hand out a grid whose bunches already integrate to their shares (same tolerance)",
+    "half of the smooth cases ask for the position moments right after integrateAndNormalize(), before any projection is refreshed (the order of main()'s final record): they must be the moments of the stored projection normalised by that projection's own charge",
     "a quarter of the multi-bunch cases start from data whose total charge is already one but whose per-bunch shares differ from the filling pattern",
     "cells of equal size in q and p are the main class (the only one the program can produce); different cell sizes are a separately keyed class",
 ]
@@ -18,4 +19,4 @@ def run(ctx):
     core.run_harness(ctx, "c09", 60000 if th else 1600)
     core.run_harness(ctx, "c09", 1600 if th else 96, variant="asan")
     ctx.min_events = {"shares_checked": 1000, "moments_checked": 1000, "gaussian_moments_checked": 300,
-                      "copies_checked": 500, "prenormalised_cases": 100, "independence_checked": 500, "empty_buckets_checked": 50, "constructed_shares_checked": 1000}
+                      "copies_checked": 500, "prenormalised_cases": 100, "independence_checked": 500, "empty_buckets_checked": 50, "constructed_shares_checked": 1000, "moments_right_after_renormalisation_checked": 300}
